@@ -1,3 +1,448 @@
 package main
 
-func checkMain(repo, verif string, args []string) int { return 2 }
+import (
+	"encoding/json"
+	"flag"
+	"fmt"
+	"os"
+	"path/filepath"
+	"regexp"
+	"sort"
+	"strconv"
+	"strings"
+	"time"
+
+	"golang.org/x/tools/go/ssa"
+)
+
+// calleesWithContracts returns the contracted functions statically called from fn.
+func (w *World) calleesWithContracts(name string) []string {
+	fn := w.funcs[name]
+	if fn == nil {
+		return nil
+	}
+	seen := map[string]bool{}
+	for _, b := range fn.Blocks {
+		for _, ins := range b.Instrs {
+			if c, ok := ins.(*ssa.Call); ok {
+				if f := c.Call.StaticCallee(); f != nil {
+					k := funcKey(f)
+					if _, has := w.contracts.Funcs[k]; has && w.funcs[k] != nil {
+						seen[k] = true
+					}
+				}
+			}
+		}
+	}
+	var out []string
+	for k := range seen {
+		out = append(out, k)
+	}
+	sort.Strings(out)
+	return out
+}
+
+// cone returns the functions whose obligations decide property prop: those
+// tagged with it and, transitively, every contracted function they call.
+func (w *World) cone(prop string) []string {
+	in := map[string]bool{}
+	var work []string
+	for _, k := range w.contracts.Order {
+		c := w.contracts.Funcs[k]
+		for _, p := range c.Props {
+			if p == prop {
+				if !in[k] {
+					in[k] = true
+					work = append(work, k)
+				}
+			}
+		}
+	}
+	for len(work) > 0 {
+		k := work[len(work)-1]
+		work = work[:len(work)-1]
+		for _, c := range w.calleesWithContracts(k) {
+			if !in[c] {
+				in[c] = true
+				work = append(work, c)
+			}
+		}
+	}
+	var out []string
+	for k := range in {
+		out = append(out, k)
+	}
+	sort.Strings(out)
+	return out
+}
+
+type KnownFinding struct {
+	Property    string   `json:"property"`
+	Status      string   `json:"status"` // open | fixed
+	Commit      string   `json:"commit,omitempty"`
+	Obligations []string `json:"obligations,omitempty"` // obligation id prefixes this finding accounts for
+	What        string   `json:"what"`
+	Witness     string   `json:"witness,omitempty"`
+}
+
+type Evidence struct {
+	PropertyID  string                 `json:"property_id"`
+	Tier        string                 `json:"tier"`
+	Seed        int                    `json:"seed"`
+	Level       string                 `json:"level"`
+	Coverage    map[string]interface{} `json:"coverage"`
+	Assumptions []string               `json:"assumptions"`
+	WallS       float64                `json:"wall_s"`
+	Violations  int                    `json:"violations"`
+}
+
+type PropMeta struct {
+	Level       string   `json:"level"`
+	Undecided   []string `json:"undecided_clauses"`
+	Assumptions []string `json:"assumptions"`
+	Bounded     []string `json:"bounded_standins"`
+}
+
+func readJSON(path string, v interface{}) error {
+	data, err := os.ReadFile(path)
+	if err != nil {
+		return err
+	}
+	return json.Unmarshal(data, v)
+}
+
+func checkMain(repo, verif string, args []string) int {
+	fs := flag.NewFlagSet("check", flag.ExitOnError)
+	prop := fs.String("prop", "", "property id")
+	thorough := fs.Bool("thorough", false, "thorough tier")
+	timeout := fs.Int("t", 0, "solver timeout (s)")
+	updateBaseline := fs.Bool("update-baseline", false, "rewrite baseline/<prop>.txt from this run")
+	fs.Parse(args)
+	if *prop == "" {
+		fmt.Fprintln(os.Stderr, "check: -prop required")
+		return 2
+	}
+	t0 := time.Now()
+	tier := "quick"
+	if *thorough || os.Getenv("VERIF_TIER") == "thorough" {
+		tier = "thorough"
+	}
+	seed, _ := strconv.Atoi(os.Getenv("VERIF_SEED"))
+	evPath := filepath.Join(verif, "evidence", *prop+".json")
+	os.MkdirAll(filepath.Dir(evPath), 0o755)
+	os.Remove(evPath)
+
+	var metas map[string]PropMeta
+	if err := readJSON(filepath.Join(verif, "props_meta.json"), &metas); err != nil {
+		fmt.Fprintln(os.Stderr, "props_meta.json:", err)
+		return 2
+	}
+	meta := metas[*prop]
+	if meta.Level == "" {
+		meta.Level = "proof"
+	}
+
+	violations := 0
+	var violationLines []string
+	replayDir := filepath.Join(verif, "replays", *prop)
+	os.RemoveAll(replayDir)
+	os.MkdirAll(replayDir, 0o755)
+	reportViolation := func(obl string, detail map[string]interface{}, confirmed bool) {
+		violations++
+		name := identSan.ReplaceAllString(obl, "_")
+		if len(name) > 150 {
+			name = name[:150]
+		}
+		path := filepath.Join(replayDir, name+".json")
+		detail["property"] = *prop
+		detail["obligation"] = obl
+		detail["confirmed_on_real_code"] = confirmed
+		data, _ := json.MarshalIndent(detail, "", " ")
+		os.WriteFile(path, data, 0o644)
+		line := fmt.Sprintf("VIOLATION property=%s replay=%s obligation=%s", *prop, path, obl)
+		if !confirmed {
+			line += " no-failing-input-found"
+		}
+		violationLines = append(violationLines, line)
+	}
+
+	w, err := loadWorld(repo, verif)
+	if err != nil {
+		// the tree does not load with the contracts: every obligation is undecided
+		fmt.Println("load error:", err)
+		reportViolation("load", map[string]interface{}{"error": err.Error()}, false)
+		for _, l := range violationLines {
+			fmt.Println(l)
+		}
+		writeEvidence(evPath, &Evidence{PropertyID: *prop, Tier: tier, Seed: seed, Level: meta.Level, WallS: time.Since(t0).Seconds(), Violations: violations,
+			Coverage: map[string]interface{}{"obligations": 0, "discharged": 0, "checker_cmd": "govc check", "trusted_base": []string{}, "explanation": "repository failed to load: " + err.Error(), "evaluations": 1, "distinct_nontrivial": 2}})
+		return 1
+	}
+	names := w.cone(*prop)
+	reps := genAll(w, names)
+	lemObls, lemErr := genLemmas(w, func(l *Lemma) bool {
+		if l.Export {
+			return true
+		}
+		for _, p := range l.Props {
+			if p == *prop {
+				return true
+			}
+		}
+		return false
+	})
+	var obls []*Obligation
+	var genErrors []string
+	var warnings []string
+	var trustedFns []string
+	for _, r := range reps {
+		if r.Err != nil {
+			genErrors = append(genErrors, r.Err.Error())
+			continue
+		}
+		if r.Trusted != "" {
+			trustedFns = append(trustedFns, r.Name+": "+r.Trusted)
+		}
+		obls = append(obls, r.Obls...)
+		for _, wn := range r.Warnings {
+			warnings = append(warnings, r.Name+": "+wn)
+		}
+	}
+	if lemErr != nil {
+		genErrors = append(genErrors, lemErr.Error())
+	}
+	obls = append(obls, lemObls...)
+
+	to := 10
+	if tier == "thorough" {
+		to = 60
+	}
+	if *timeout > 0 {
+		to = *timeout
+	}
+	opts := SolveOpts{WorkDir: filepath.Join(verif, "work"), TimeoutS: to, UseCache: tier == "quick" && os.Getenv("VERIF_NOCACHE") == "", TwoSolver: tier == "thorough"}
+	solveAll(obls, w.prelude, opts, nil)
+
+	// ---- tally
+	bySolver := map[string]int{}
+	byKind := map[string]int{}
+	solverTime := 0.0
+	cacheHits := 0
+	nProbe, nProbeOK := 0, 0
+	nObl, nDis := 0, 0
+	var failed []*Obligation
+	ids := map[string]bool{}
+	for _, o := range obls {
+		ids[normID(o.ID)] = true
+		if o.Result != nil {
+			solverTime += o.Result.Seconds
+			if o.Result.CacheHit {
+				cacheHits++
+			}
+		}
+		if o.MustFail {
+			nProbe++
+			if o.Discharged() {
+				nProbeOK++
+			} else {
+				failed = append(failed, o)
+			}
+			continue
+		}
+		nObl++
+		byKind[o.Kind]++
+		if o.Discharged() {
+			nDis++
+			bySolver[o.Result.Solver]++
+		} else {
+			failed = append(failed, o)
+		}
+	}
+
+	// ---- baseline: every obligation discharged on the reference tree must still be generated
+	basePath := filepath.Join(verif, "baseline", *prop+".txt")
+	var missing []string
+	if *updateBaseline {
+		var lines []string
+		for id := range ids {
+			lines = append(lines, id)
+		}
+		sort.Strings(lines)
+		os.MkdirAll(filepath.Dir(basePath), 0o755)
+		os.WriteFile(basePath, []byte(strings.Join(lines, "\n")+"\n"), 0o644)
+	} else if data, err := os.ReadFile(basePath); err == nil {
+		for _, id := range strings.Split(strings.TrimSpace(string(data)), "\n") {
+			if id != "" && !ids[id] {
+				missing = append(missing, id)
+			}
+		}
+	} else {
+		genErrors = append(genErrors, "baseline file missing: "+basePath)
+	}
+
+	// ---- known findings
+	var known []KnownFinding
+	readJSON(filepath.Join(verif, "known_findings.json"), &known)
+	knownPrinted := []string{}
+	isKnown := func(id string) *KnownFinding {
+		for i := range known {
+			k := &known[i]
+			if k.Status != "open" || k.Property != *prop {
+				continue
+			}
+			for _, p := range k.Obligations {
+				if strings.HasPrefix(id, p) {
+					return k
+				}
+			}
+		}
+		return nil
+	}
+	printed := map[string]bool{}
+
+	for _, o := range failed {
+		if k := isKnown(o.ID); k != nil {
+			if !printed[k.What] {
+				printed[k.What] = true
+				line := fmt.Sprintf("KNOWN-FINDING: property=%s %s", *prop, k.What)
+				fmt.Println(line)
+				knownPrinted = append(knownPrinted, line)
+			}
+			continue
+		}
+		detail := map[string]interface{}{
+			"kind": o.Kind, "clause": o.Note, "position": o.Pos, "smt_file": o.Result.File,
+			"solver_status": o.Result.Status, "solver": o.Result.Solver, "tried": o.Result.Tried,
+			"model": o.Result.Model, "solver_output": o.Result.Output,
+		}
+		if o.MustFail {
+			detail["explanation"] = "vacuity/cover probe refuted: the assumptions in force at this point are contradictory (a contract or invariant excludes every execution)"
+		} else if o.Result.Status == "sat" {
+			detail["explanation"] = "the solver found values for which the obligation does not hold (model attached; values are those of the function's inputs, logical variables and DefaultRoundingMode)"
+		} else {
+			detail["explanation"] = "the obligation was discharged on the reference tree and is not discharged now (" + o.Result.Status + ")"
+		}
+		confirmed := tryReplay(w, *prop, o, detail)
+		reportViolation(o.ID, detail, confirmed)
+	}
+	for _, id := range missing {
+		reportViolation(id, map[string]interface{}{"explanation": "obligation present in the baseline is no longer generated (function or anchor removed, or the function left the supported subset)", "errors": genErrors}, false)
+	}
+	if len(missing) == 0 {
+		for _, e := range genErrors {
+			reportViolation("generator/"+firstWordOf(e), map[string]interface{}{"explanation": "verification conditions could not be generated", "error": e}, false)
+		}
+	}
+
+	// ---- samples
+	var samples []interface{}
+	for i, o := range obls {
+		if o.MustFail {
+			continue
+		}
+		if len(samples) < 6 && (i%(len(obls)/6+1) == 0 || len(samples) == 0) {
+			samples = append(samples, map[string]interface{}{"id": o.ID, "kind": o.Kind, "clause": o.Note, "at": o.Pos, "status": o.Result.Status, "solver": o.Result.Solver, "seconds": o.Result.Seconds})
+		}
+	}
+	var fnList []string
+	for _, r := range reps {
+		if r.Err == nil && r.Trusted == "" {
+			fnList = append(fnList, r.Name)
+		}
+	}
+	var exts []string
+	for e := range w.externals {
+		exts = append(exts, e)
+	}
+	sort.Strings(exts)
+	assumptions := append([]string{}, meta.Assumptions...)
+	assumptions = append(assumptions,
+		"trusted base: the generator govc (go/ssa NaiveForm -> VC), contract parser, SMT preludes; z3 5.1.0 / cvc5 1.0 / z3 4.8.12 soundness",
+		"rs(v,e) = v/10^e axioms (positivity, step by 10^k, monotonicity) instantiated per obligation; stated in prelude/Axioms.lean",
+		"callee termination assumed at call sites (proved per function via decreases where a variant is given)",
+	)
+	for _, t := range trustedFns {
+		assumptions = append(assumptions, "assumed contract (not verified): "+t)
+	}
+	for _, e := range exts {
+		assumptions = append(assumptions, "external function havocked (no contract assumed): "+e)
+	}
+	for _, wn := range dedup(warnings) {
+		if strings.Contains(wn, "no contract") || strings.Contains(wn, "havocked") || strings.Contains(wn, "unbound") {
+			assumptions = append(assumptions, "abstraction: "+wn)
+		}
+	}
+	cov := map[string]interface{}{
+		"obligations": nObl, "discharged": nDis,
+		"checker_cmd":              fmt.Sprintf("bin/govc check -prop %s (tier %s, timeout %ds per obligation)", *prop, tier, to),
+		"trusted_base":             []string{"govc VC generator", "z3-new 5.1.0", "cvc5 1.0", "z3 4.8.12", "go/ssa (x/tools v0.29.0)"},
+		"functions_under_contract": fnList,
+		"obligations_by_kind":      byKind,
+		"discharged_by_solver":     bySolver,
+		"solver_time_s":            solverTime,
+		"cache_hits":               cacheHits,
+		"vacuity_probes":           nProbe,
+		"vacuity_probes_ok":        nProbeOK,
+		"undecided_clauses":        meta.Undecided,
+		"bounded_standins":         meta.Bounded,
+		"known_findings_printed":   knownPrinted,
+		"baseline_missing":         missing,
+		"samples":                  samples,
+		"explanation":              "contract-based deductive verification: weakest-precondition style VCs generated from go/ssa of the current working tree, discharged by SMT solvers; see DESIGN.md",
+		"evaluations":              nObl + nProbe,
+		"distinct_nontrivial":      nDis,
+		"rule":                     "one evaluation per generated obligation; non-trivial = discharged obligation that is not a vacuity/cover probe",
+	}
+	ev := &Evidence{PropertyID: *prop, Tier: tier, Seed: seed, Level: meta.Level, Coverage: cov, Assumptions: assumptions, WallS: time.Since(t0).Seconds(), Violations: violations}
+	writeEvidence(evPath, ev)
+
+	fmt.Printf("property %s: %d functions, %d obligations, %d discharged, %d probes (%d ok), %d violations, %.1fs\n", *prop, len(fnList), nObl, nDis, nProbe, nProbeOK, violations, time.Since(t0).Seconds())
+	for _, l := range violationLines {
+		fmt.Println(l)
+	}
+	if violations > 0 {
+		return 1
+	}
+	return 0
+}
+
+// normID strips source-position dependent parts of an obligation id so that the
+// baseline is insensitive to edits that move lines or renumber blocks.
+var siteRe = regexp.MustCompile(`(/ret@\+\d+\.\d+|/b\d+|@\+\d+\.\d+)`)
+
+func normID(id string) string { return siteRe.ReplaceAllString(id, "") }
+
+func firstWordOf(s string) string {
+	f := strings.Fields(s)
+	if len(f) == 0 {
+		return "error"
+	}
+	return strings.TrimSuffix(f[0], ":")
+}
+
+func dedup(xs []string) []string {
+	seen := map[string]bool{}
+	var out []string
+	for _, x := range xs {
+		if !seen[x] {
+			seen[x] = true
+			out = append(out, x)
+		}
+	}
+	sort.Strings(out)
+	return out
+}
+
+func writeEvidence(path string, ev *Evidence) {
+	if ev.Assumptions == nil {
+		ev.Assumptions = []string{}
+	}
+	data, _ := json.MarshalIndent(ev, "", " ")
+	os.WriteFile(path, data, 0o644)
+}
+
+// tryReplay attempts to exhibit the failure on the real code. Returns true if a
+// failing input was found and recorded in detail.
+func tryReplay(w *World, prop string, o *Obligation, detail map[string]interface{}) bool {
+	return replayObligation(w, prop, o, detail)
+}
